@@ -422,6 +422,29 @@ def const_locals(f):
     return out
 
 
+def enum_eq_leaf(n, is_field, target, fm_target):
+    """`field == E` / `field != E` for an enum-typed field: fm_target when E is the enumerator `target`; for any OTHER enumerator equality
+    still says something — the field is then certainly not `target` (inequality says nothing).  So `tls == Server` refutes `tls == Client`
+    exactly as the else-branch of `tls == Client` does, and a switch over the field (ViewAbs case edges) reads like the if-chain."""
+    if n.get("k") == "bin" and n["op"] in ("==", "!="):
+        l, rr = strip_casts(n["lhs"]), strip_casts(n["rhs"])
+        if l.get("k") == "member" and rr.get("k") == "enum" and is_field(l):
+            fm = fm_target if last(rr["n"]) == target else ("and?", Not(fm_target), None)
+            return fm if n["op"] == "==" else Not(fm)
+    return None
+
+
+def ptr_leaf(n, field, atom):
+    """the pointer member `field` used as a truth value, or compared with nullptr / 0"""
+    if n.get("k") == "member" and n.get("n") == field:
+        return A(atom)
+    if n.get("k") == "bin" and n["op"] in ("==", "!="):
+        l, rr = strip_casts(n["lhs"]), strip_casts(n["rhs"])
+        if l.get("k") == "member" and l.get("n") == field and (rr.get("k") == "null" or const_value(rr) == 0):
+            return Not(A(atom)) if n["op"] == "==" else A(atom)
+    return None
+
+
 class ViewAbs(PredAbs):
     """PredAbs over a view: (a) the value a spliced helper returns is kept in the ghost atom `hret` (set at the helper's `iret`, read where
     the caller tests or returns the call), (b) conditions are read through const locals (const_locals) and folded constants."""
@@ -466,6 +489,23 @@ class ViewAbs(PredAbs):
             return ops
         self.leaf2 = leaf2
         PredAbs.__init__(self, f, vocab, leaf2, eff2, init=init, **kw)
+
+    def _edge(self, st, b, si):
+        # a switch edge is the test `scrutinee == case value` (default / no case: unequal to every case value)
+        lab = b.edge_label(si)
+        c = b.cond
+        if c is not None and b.term and b.term.get("k") == "SwitchStmt" and (lab == "default" or (isinstance(lab, tuple) and lab[0] == "case")):
+            def eq(v):
+                return translate({"k": "bin", "op": "==", "lhs": c, "rhs": v}, self.leaf)
+            if lab == "default":
+                for sj in range(len(b.succs)):
+                    lj = b.edge_label(sj)
+                    if isinstance(lj, tuple) and lj[0] == "case" and isinstance(lj[1], dict):
+                        st = self.v.assume(st, known_when(eq(lj[1]), False))
+            elif isinstance(lab[1], dict):
+                st = self.v.assume(st, known_when(eq(lab[1]), True))
+            return st if st else None
+        return PredAbs._edge(self, st, b, si)
 
     def ret_true(self, ret):
         """formula that holds exactly when the `return` element hands back true: T / F for a constant, `hret` for a spliced helper's result,
@@ -584,8 +624,9 @@ def tls_leaf(n):
         l, rr = strip_casts(n["lhs"]), strip_casts(n["rhs"])
         f = field_of(l) if l.get("k") == "member" else None
         en = rr["n"] if rr.get("k") == "enum" else None
-        if f == SESS + "::tlsMode" and en and en.endswith("TlsMode::None"):
-            return Not(A("tls")) if n["op"] == "==" else A("tls")
+        if f == SESS + "::tlsMode" and en:
+            fm = Not(A("tls")) if en.endswith("TlsMode::None") else ("and?", A("tls"), None)      # == Client / == Server: certainly a TLS session
+            return fm if n["op"] == "==" else Not(fm)
         if f == SESS + "::tlsState" and en:
             a = {"Handshake": "hs", "Open": "open"}.get(last(en))
             if a:
@@ -1053,11 +1094,8 @@ def r4(ctx, r):
     vocab2 = Vocab(["reqtls"])
 
     def leaf2(n):
-        if n.get("k") == "bin" and n["op"] in ("==", "!="):
-            l, rr = strip_casts(n["lhs"]), strip_casts(n["rhs"])
-            if l.get("k") == "member" and l["n"].endswith("ConnectReq::tls") and rr.get("k") == "enum" and last(rr["n"]) == "None":
-                return Not(A("reqtls")) if n["op"] == "==" else A("reqtls")
-        return cbset_leaf(n)
+        fm = enum_eq_leaf(n, lambda l: l["n"].endswith("ConnectReq::tls"), "None", Not(A("reqtls")))
+        return fm if fm is not None else cbset_leaf(n)
     pa2 = ViewAbs(dc, vocab2, leaf2, lambda e: None)
     ann2 = cb_invocations(dc, "onConnect")
     for e in ann2:
@@ -1116,18 +1154,34 @@ def r5(ctx, r):
                 isnull = v is not None and (strip_casts(v).get("k") == "null" or const_value(v) == 0)
                 r.expect(g.name == TE + "::initTls" or g.name in it.inlined_names or (last(g.name) == "freeTls" and isnull), g, e, "%s written" % fld, "%s assigns %s" % (short(g.name), fld),
                          okdesc="%s: %s %s" % (short(g.name), fld, "= nullptr" if isnull else "created"))
+    # a context slot written through a pointer (`for (SSL_CTX **slot : {&_sslSrv, &_sslCli}) *slot = nullptr`): where the address of a slot is
+    # taken, every store through a dereferenced pointer must be a null store and the function must be the one that frees the contexts;
+    # anywhere else the alias cannot be followed (refusal)
+    for g in fb.in_file(FILE):
+        if not g.ok:
+            continue
+        taken = [n for n in g.nodes.values() if n.get("k") == "un" and n.get("op") == "&" and field_of(n.get("v")) in (TE + "::_sslSrv", TE + "::_sslCli")]
+        if not taken:
+            continue
+        if last(g.name) != "freeTls":
+            raise AnalysisBroken("%s takes the address of a TLS context slot (line %s): writes through the alias are not followed" % (short(g.name), taken[0].get("l", "?")))
+        for n in g.nodes.values():
+            if n.get("k") == "bin" and n["op"] == "=" and strip_casts(n["lhs"]).get("k") == "un" and strip_casts(n["lhs"]).get("op") == "*":
+                r.instance()
+                v = strip_casts(n["rhs"])
+                r.expect(v.get("k") == "null" or const_value(v) == 0, g, g.elem_for(n), "context slot written through a pointer", "%s stores a non-null value into a TLS context slot through a pointer" % short(g.name),
+                         okdesc="%s: context slots cleared through a pointer" % short(g.name))
     # doConnect: requested ⇒ session carries SSL
     for name, reqfield, want, ctxfield, side in (("doConnect", "ConnectReq::tls", "Client", "_sslCli", "cli"), ("onListener", "Listener::tls", "Server", "_sslSrv", "srv")):
         f = vfn(ctx, name)
         vocab = Vocab(["req", "en", "ctx", "stls"])
 
         def leaf(n, reqfield=reqfield, want=want, ctxfield=ctxfield, side=side):
-            if n.get("k") == "bin" and n["op"] in ("==", "!="):
-                l, rr = strip_casts(n["lhs"]), strip_casts(n["rhs"])
-                if l.get("k") == "member" and l["n"].endswith(reqfield) and rr.get("k") == "enum" and last(rr["n"]) == want:
-                    return A("req") if n["op"] == "==" else Not(A("req"))
-            if n.get("k") == "member" and n["n"] == TE + "::" + ctxfield:
-                return A("ctx")
+            fm = enum_eq_leaf(n, lambda l: l["n"].endswith(reqfield), want, A("req"))
+            if fm is None:
+                fm = ptr_leaf(n, TE + "::" + ctxfield, "ctx")
+            if fm is not None:
+                return fm
             fm = cfg_leaf(n)
             if fm is not None and fm == A(side + "_en"):
                 return A("en")
@@ -1160,21 +1214,8 @@ def r5(ctx, r):
     for name, reqfield, other, coll in (("doConnect", "ConnectReq::tls", "Server", "_sessions"), ("doAddListener", "ListenerCfg::tls", "Client", "_listeners")):
         f = vfn(ctx, name)
 
-        def leafo(n, reqfield=reqfield, other=other):
-            if n.get("k") == "bin" and n["op"] in ("==", "!="):
-                l, rr = strip_casts(n["lhs"]), strip_casts(n["rhs"])
-                if l.get("k") == "member" and l["n"].endswith(reqfield) and rr.get("k") == "enum":
-                    if last(rr["n"]) == other:
-                        return A("other") if n["op"] == "==" else Not(A("other"))
-                    # tls == <another enumerator> true ⇒ not the `other` one
-                    return ("implies_not_other", n["op"] == "==")
-            return None
-
-        def leafo2(n):
-            x = leafo(n)
-            if isinstance(x, tuple) and x and x[0] == "implies_not_other":
-                return None
-            return x
+        def leafo2(n, reqfield=reqfield, other=other):
+            return enum_eq_leaf(n, lambda l: l["n"].endswith(reqfield), other, A("other"))
         pao = ViewAbs(f, Vocab(["other"]), leafo2, lambda e: None)
         sites = common.member_calls_on(f, TE + "::" + coll, ("emplace", "insert", "try_emplace"))
         if not sites:
@@ -1188,13 +1229,8 @@ def r5(ctx, r):
     vocab = Vocab(["req", "ctx"])
 
     def leafl(n):
-        if n.get("k") == "bin" and n["op"] in ("==", "!="):
-            l, rr = strip_casts(n["lhs"]), strip_casts(n["rhs"])
-            if l.get("k") == "member" and l["n"].endswith("ListenerCfg::tls") and rr.get("k") == "enum" and last(rr["n"]) == "Server":
-                return A("req") if n["op"] == "==" else Not(A("req"))
-        if n.get("k") == "member" and n["n"] == TE + "::_sslSrv":
-            return A("ctx")
-        return None
+        fm = enum_eq_leaf(n, lambda l: l["n"].endswith("ListenerCfg::tls"), "Server", A("req"))
+        return fm if fm is not None else ptr_leaf(n, TE + "::_sslSrv", "ctx")
     pal = ViewAbs(dal, vocab, leafl, lambda e: None)
     for e in common.member_calls_on(dal, TE + "::_listeners", ("emplace", "insert")):
         r.instance()
@@ -1568,12 +1604,15 @@ def r10(ctx, r):
     lis = [e for e in st.stmts() if e.node.get("k") == "mcall" and last(e.node.get("callee", "")) == "addListener"]
     if not lis:
         raise AnalysisBroken("HttpServer::start: addListener call not found")
-    inits = {}
-    for e in st.stmts():
-        if e.node.get("k") == "decl":
-            for dv in e.node["vars"]:
-                if dv.get("init") is not None:
-                    inits[dv["d"]] = dv["init"]
+    # the mode handed to addListener is TlsMode::Server whenever a TLS configuration is present.  Decided by flow, not by the spelling of
+    # the argument: `has` = _tlsConfig holds a value (has_value(), operator bool, a bool local copied from it), `msrv` = the local that is
+    # passed currently holds TlsMode::Server (followed through its initialiser and every assignment, `c ? Server : None` included)
+    def has_leaf(n):
+        if n.get("k") == "member" and n.get("n") == fld:
+            return A("has")
+        if n.get("k") == "mcall" and last(n.get("callee", "")) == "has_value" and field_of(n.get("obj")) == fld:
+            return A("has")
+        return None
     for e in lis:
         r.instance()
         arg = next((a for a in e.node["args"] if "TlsMode" in (a.get("t") or "")), None)
@@ -1581,21 +1620,47 @@ def r10(ctx, r):
             r.fail(st, e, "listener without TLS mode", "addListener is called without a TLS mode argument: the listener takes the transport default")
             continue
         v = strip_casts(arg)
-        if v.get("k") == "var" and v.get("d") in inits:
-            v = strip_casts(inits[v["d"]])
-        ok = False
-        if v.get("k") == "cond":
-            c = strip_casts(v["c"])
-            has = c.get("k") == "mcall" and last(c.get("callee", "")) in ("has_value", "operator bool") and field_of(c.get("obj")) == fld
-            t, f_ = strip_casts(v["t"]), strip_casts(v["f"])
-            if not has or t.get("k") != "enum":
-                raise AnalysisBroken("HttpServer::start: listener TLS mode `%s` is a conditional this rule does not know" % show(v)[:70])
-            ok = t["n"].endswith("TlsMode::Server")
-        elif v.get("k") == "enum":
-            ok = v["n"].endswith("TlsMode::Server")
-        else:
+        md = v.get("d") if v.get("k") == "var" else None
+
+        def is_server(x, leaf):
+            """formula for 'x evaluates to TlsMode::Server' (None = unknown)"""
+            x = strip_casts(x)
+            if x.get("k") == "enum":
+                return T if x["n"].endswith("TlsMode::Server") else F
+            if x.get("k") == "cond":
+                c, t_, f_ = total(translate(x["c"], leaf)), is_server(x["t"], leaf), is_server(x["f"], leaf)
+                if c is None or t_ is None or f_ is None:
+                    return None
+                return Or(And(c, t_), And(Not(c), f_))
+            if x.get("k") == "var" and md is not None and x.get("d") == md:
+                return A("msrv")
+            return None
+        box = {}
+
+        def eff(x, md=md):
+            if x.kind != "stmt" or md is None:
+                return None
+            n = x.node
+            val = None
+            if n.get("k") == "decl":
+                for dv in n["vars"]:
+                    if dv.get("d") == md:
+                        val = dv.get("init") or {"k": "?"}
+            elif n.get("k") == "bin" and n["op"] == "=" and strip_casts(n["lhs"]).get("k") == "var" and strip_casts(n["lhs"]).get("d") == md:
+                val = n["rhs"]
+            if val is None:
+                return None
+            fm = is_server(val, box["pa"].leaf) if "pa" in box else None
+            return [("assign", "msrv", fm)] if fm is not None else [("havoc", "msrv")]
+        pa = ViewAbs(st, Vocab(["has", "msrv"]), has_leaf, eff, track_bools=True)
+        box["pa"] = pa
+        pa = ViewAbs(st, Vocab(["has", "msrv"]), has_leaf, eff, track_bools=True)     # second pass: eff now reads conditions through pa's bool locals
+        box["pa"] = pa
+        want = is_server(v, pa.leaf)
+        if want is None:
             raise AnalysisBroken("HttpServer::start: listener TLS mode `%s` is computed in a form this rule does not know" % show(v)[:70])
-        r.expect(ok, st, e, "listener mode not derived from the TLS configuration", "the listener's TLS mode is `%s`: with a TLS configuration present the listener must be TlsMode::Server" % show(v)[:70],
+        r.expect(pa.entails(e, Or(Not(A("has")), want)), st, e, "listener mode not derived from the TLS configuration", "the listener's TLS mode `%s` can be something other than TlsMode::Server although a TLS configuration "
+                 "is present (known at the call: %s): with a TLS configuration present the listener must be TlsMode::Server" % (show(v)[:70], ",".join(pa.describe(e)) or "nothing"),
                  okdesc="listener mode = _tlsConfig.has_value() ? Server : None")
     # every field forwarded, inside the has_value() branch, with enabled = true and defaultMode = Server
     rec = fb.record(HS + "::TlsConfig")
